@@ -150,6 +150,144 @@ theorem pushData_class_65536_up (d : Bytes) (h : 65536 ≤ d.length ∧ d.length
 example : parseProgram (pushDataBytes (List.replicate 76 0xab)) = .ok [⟨0x4c, 78, List.replicate 76 0xab⟩] :=
   pushData_class_76_255 _ (by decide)
 
+/-! ## Builders and recognisers agree -/
+
+theorem p2w_eq (h : Bytes) : p2wpkhProgram h = byte 0 :: (pushDataBytes h ++ []) := by
+  simp [p2wpkhProgram, pushDataUint64, Ops.OP_0]
+
+/-- what the P2WPKH / P2WSH builder output parses to -/
+theorem parse_p2w (h : Bytes) (hh : h.length + 6 ≤ maxInt32) :
+    parseProgram (p2wpkhProgram h) =
+      .ok [⟨0x00, 1, []⟩, ⟨pushOp h.length, h.length + pushHdr h.length, h⟩] := by
+  have hb := pushHdr_bounds h.length
+  have hl : (p2wpkhProgram h).length = 1 + (h.length + pushHdr h.length) := by
+    rw [p2w_eq]; simp [pushDataBytes_length]; omega
+  apply parseProgram_of_spec (fuel := 3) (by rw [hl]; omega) (by rw [hl]; omega)
+  rw [p2w_eq, specProg_plain _ (by decide), specProg_push h [] (by unfold maxInt32 at hh; omega), specProg_nil]
+  rfl
+
+theorem p2wsh_eq_p2wpkh (h : Bytes) : p2wshProgram h = p2wpkhProgram h := rfl
+
+/-- **builders_recognised (1).** `IsP2WPKHScript(P2WPKHProgram(h))` iff `h` has 20 bytes -/
+theorem p2wpkh_recognised (h : Bytes) (hh : h.length + 6 ≤ maxInt32) :
+    isP2WPKHScript (p2wpkhProgram h) = true ↔ h.length = 20 := by
+  unfold isP2WPKHScript
+  rw [parse_p2w h hh]
+  simp only [opIs, pushOp_toNat, Ops.OP_0, Ops.OP_DATA_20, Ops.PayToWitnessPubKeyHashDataSize]
+  constructor
+  · intro hx; simp at hx; exact hx.2
+  · intro hx; simp [hx]
+
+/-- **builders_recognised (2).** `IsP2WSHScript(P2WSHProgram(h))` iff `h` has 32 bytes -/
+theorem p2wsh_recognised (h : Bytes) (hh : h.length + 6 ≤ maxInt32) :
+    isP2WSHScript (p2wshProgram h) = true ↔ h.length = 32 := by
+  unfold isP2WSHScript
+  rw [p2wsh_eq_p2wpkh, parse_p2w h hh]
+  simp only [opIs, pushOp_toNat, Ops.OP_0, Ops.OP_DATA_32, Ops.PayToWitnessScriptHashDataSize]
+  constructor
+  · intro hx; simp at hx; exact hx.2
+  · intro hx; simp [hx]
+
+theorem register_eq (c : Bytes) :
+    registerProgram c = byte 0x6a :: (pushDataBytes Ops.bcrpTag ++ (pushDataBytes [byte Ops.bcrpVersion] ++ (pushDataBytes c ++ []))) := by
+  simp [registerProgram, Ops.OP_FAIL]
+
+/-- what the BCRP registration builder output parses to -/
+theorem parse_register (c : Bytes) (hc : c.length + 14 ≤ maxInt32) :
+    parseProgram (registerProgram c) =
+      .ok [⟨0x6a, 1, []⟩, ⟨0x04, 5, Ops.bcrpTag⟩, ⟨0x01, 2, [byte Ops.bcrpVersion]⟩,
+           ⟨pushOp c.length, c.length + pushHdr c.length, c⟩] := by
+  have hb := pushHdr_bounds c.length
+  have hl : (registerProgram c).length = 8 + (c.length + pushHdr c.length) := by
+    rw [register_eq]; simp [pushDataBytes_length, Ops.bcrpTag, pushHdr]; omega
+  apply parseProgram_of_spec (fuel := 5) (by rw [hl]; omega) (by rw [hl]; omega)
+  unfold maxInt32 at hc
+  rw [register_eq, specProg_plain _ (by decide), specProg_push _ _ (by simp [Ops.bcrpTag]),
+    specProg_push _ _ (by simp [Ops.bcrpTag, pushHdr]),
+    specProg_push c [] (by simp [Ops.bcrpTag, pushHdr]; omega), specProg_nil]
+  rfl
+
+/-- **builders_recognised (3).** `IsBCRPScript(RegisterProgram(c))` iff the contract is not
+    empty, and `ParseContract` returns the contract -/
+theorem register_recognised (c : Bytes) (hc : c.length + 14 ≤ maxInt32) :
+    (isBCRPScript (registerProgram c) = true ↔ c ≠ []) ∧ parseContract (registerProgram c) = .ok c := by
+  unfold isBCRPScript parseContract
+  rw [parse_register c hc]
+  refine ⟨?_, rfl⟩
+  have e1 : opIs ⟨0x6a, 1, []⟩ Ops.OP_FAIL = true := by decide
+  have e2 : opIs ⟨0x04, 5, Ops.bcrpTag⟩ Ops.OP_DATA_4 = true := by decide
+  have e3 : opIs ⟨0x01, 2, [byte Ops.bcrpVersion]⟩ Ops.OP_DATA_1 = true := by decide
+  simp only [e1, e2, e3]
+  cases c with
+  | nil => simp
+  | cons x t => simp
+
+theorem call_eq (h : Bytes) : callContractProgram h = pushDataBytes Ops.bcrpTag ++ (pushDataBytes h ++ []) := by
+  simp [callContractProgram]
+
+/-- what the contract-call builder output parses to -/
+theorem parse_call (h : Bytes) (hh : h.length + 11 ≤ maxInt32) :
+    parseProgram (callContractProgram h) =
+      .ok [⟨0x04, 5, Ops.bcrpTag⟩, ⟨pushOp h.length, h.length + pushHdr h.length, h⟩] := by
+  have hb := pushHdr_bounds h.length
+  have hl : (callContractProgram h).length = 5 + (h.length + pushHdr h.length) := by
+    rw [call_eq]; simp [pushDataBytes_length, Ops.bcrpTag, pushHdr] <;> omega
+  apply parseProgram_of_spec (fuel := 3) (by rw [hl]; omega) (by rw [hl]; omega)
+  unfold maxInt32 at hh
+  rw [call_eq, specProg_push _ _ (by simp [Ops.bcrpTag]),
+    specProg_push h [] (by simp [Ops.bcrpTag, pushHdr] <;> omega), specProg_nil]
+  rfl
+
+/-- **builders_recognised (4).** `IsCallContractScript(CallContractProgram(h))` iff `h` has
+    32 bytes; then `ParseContractHash` returns `h` -/
+theorem call_recognised (h : Bytes) (hh : h.length + 11 ≤ maxInt32) :
+    (isCallContractScript (callContractProgram h) = true ↔ h.length = 32) ∧
+    (h.length = 32 → parseContractHash (callContractProgram h) = .ok h) := by
+  unfold isCallContractScript parseContractHash
+  rw [parse_call h hh]
+  have e1 : (!opIs ⟨0x04, 5, Ops.bcrpTag⟩ Ops.OP_DATA_4 || (⟨0x04, 5, Ops.bcrpTag⟩ : Inst).data != Ops.bcrpTag) = false := by
+    decide
+  simp only [e1]
+  simp only [opIs, pushOp_toNat, Ops.OP_DATA_32, Ops.BCRPContractHashDataSize]
+  refine ⟨⟨?_, ?_⟩, ?_⟩
+  · intro hx; simp at hx; exact hx.2
+  · intro hx; simp [hx]
+  · intro hx
+    have : (h ++ List.replicate 32 (0 : UInt8)).take 32 = h := by
+      rw [List.take_append_of_le_length (by omega), List.take_of_length_le (by omega)]
+    rw [this]
+
+example : isP2WPKHScript (p2wpkhProgram (List.replicate 20 7)) = true :=
+  (p2wpkh_recognised _ (by decide)).mpr (by decide)
+example : isBCRPScript (registerProgram [0x51]) = true ∧ isBCRPScript (registerProgram []) = false := by decide
+
+/-- **mutual exclusion.** On ANY byte string at most one of the five recognisers answers
+    true (IsP2WScript is by definition the union of the first three). -/
+theorem recognisers_exclusive (p : Bytes) :
+    (isP2WPKHScript p = true → isP2WSHScript p = false ∧ isStraightforward p = false ∧ isBCRPScript p = false ∧ isCallContractScript p = false) ∧
+    (isP2WSHScript p = true → isStraightforward p = false ∧ isBCRPScript p = false ∧ isCallContractScript p = false) ∧
+    (isStraightforward p = true → isBCRPScript p = false ∧ isCallContractScript p = false) ∧
+    (isBCRPScript p = true → isCallContractScript p = false) := by
+  unfold isP2WPKHScript isP2WSHScript isStraightforward isBCRPScript isCallContractScript
+  cases parseProgram p with
+  | error e => simp
+  | ok is =>
+    match is with
+    | [] => simp
+    | [i] => simp
+    | [i0, i1] =>
+      simp only [opIs, Ops.OP_0, Ops.OP_DATA_20, Ops.OP_DATA_32, Ops.OP_DATA_4]
+      by_cases h0 : i0.op.toNat = 0
+      · simp [h0]
+        intro h1; simp [h1]
+      · simp [h0]
+    | [i0, i1, i2] => simp
+    | i0 :: i1 :: i2 :: i3 :: [] => simp
+    | i0 :: i1 :: i2 :: i3 :: i4 :: r => simp
+
+theorem p2wscript_is_union (p : Bytes) :
+    isP2WScript p = (isP2WPKHScript p || isP2WSHScript p || isStraightforward p) := rfl
+
 /-! ## The assemble–disassemble round trip -/
 
 def asmDis (p : Bytes) : Option (Except AErr Bytes) :=
